@@ -100,6 +100,8 @@ type Run struct {
 	subSeq        int
 	seqSeen       map[string]map[uint64]string
 	maxAppliedTs  uint64
+	discardTs     uint64 // managed mode: highest value passed to SetDiscardTs
+	usedTs        map[uint64]bool
 	pendingVerify []string
 	maxDiscardTs  uint64 // highest discard watermark any compaction used so far
 	compactions   int
@@ -567,6 +569,10 @@ func (r *Run) opGet(cl *clientState, idx int, op *Op) {
 	if ts.rw {
 		ts.reads[string(key)] = true
 	}
+	if r.c.Cfg.Managed {
+		r.compareManagedRead(cl, key, ts.readTs, tnow, o)
+		return
+	}
 	r.mu.Lock()
 	if nv := r.model.Newest(string(key), ts.readTs); nv != nil && !nv.Del && expired(nv.Exp, tnow) {
 		r.probe("expiry_crossed")
@@ -584,6 +590,72 @@ func (r *Run) opGet(cl *clientState, idx int, op *Op) {
 	}
 	r.mu.Unlock()
 	r.compareRead("get", cl, key, ts.readTs, want != nil, &wantCopy, o)
+}
+
+// compareManagedRead is the managed-mode (C36) read oracle: the result must be
+// the newest write at or below the read timestamp among the commits that were
+// acknowledged before the read, where a commit still in flight may or may not
+// be visible yet. Reads below the discard timestamp are outside the claim.
+func (r *Run) compareManagedRead(cl *clientState, key []byte, readTs, tnow uint64, o observed) {
+	r.mu.Lock()
+	defer r.mu.Unlock()
+	if readTs < r.discardTs {
+		r.probeLocked("managed_read_below_discard_ts")
+		return
+	}
+	vs := r.model.Keys[string(key)]
+	// walk newest -> oldest among versions <= readTs; in-flight ones are optional
+	okAbsent := true
+	for i := len(vs) - 1; i >= 0; i-- {
+		v := &vs[i]
+		if v.Ts > readTs || !r.model.live(v) {
+			continue
+		}
+		c := r.model.Commits[v.Commit]
+		visible := !v.Del && !expired(v.Exp, tnow)
+		if visible && o.found && bytes.Equal(o.val, v.Val) && o.ver == v.Ts && o.um == v.UM && o.exp == v.Exp {
+			r.probeLocked("managed_read_checked")
+			return
+		}
+		if !visible && !o.found {
+			return
+		}
+		if !c.Acked {
+			// the write that replaced an earlier one at the same key+version is
+			// still in flight: the earlier one may still be what is stored
+			for j := range v.Older {
+				ov := &v.Older[j]
+				if !ov.Del && o.found && bytes.Equal(o.val, ov.Val) && o.ver == ov.Ts {
+					r.probeLocked("managed_read_checked")
+					return
+				}
+				if ov.Del && !o.found {
+					return
+				}
+			}
+		}
+		if c.Acked {
+			// this version is definitely applied: nothing older may show through
+			okAbsent = false
+			break
+		}
+	}
+	if !o.found && okAbsent {
+		return
+	}
+	var hist []string
+	for i := len(vs) - 1; i >= 0 && len(hist) < 6; i-- {
+		if vs[i].Ts <= readTs {
+			hist = append(hist, fmt.Sprintf("%s(acked=%v)", (&vs[i]).String(), r.model.Commits[vs[i].Commit].Acked))
+		}
+	}
+	r.violateLocked([]string{"C36", "C01"}, "managed-read", "c%d read of %q at ts=%d returned %v; versions at or below it (newest first): %v", cl.id, key, readTs, o, hist)
+}
+
+func (r *Run) probeLocked(name string) {
+	r.pmu.Lock()
+	r.stats.Probes[name]++
+	r.pmu.Unlock()
 }
 
 func descW(w WriteRec) string {
@@ -737,18 +809,47 @@ func (r *Run) opCommit(cl *clientState, idx int, op *Op) {
 		r.mu.Lock()
 		cl.cbPending++
 		r.mu.Unlock()
-		ts.txn.CommitWith(func(err error) {
+		cb := func(err error) {
 			finish(err)
 			r.mu.Lock()
 			cl.cbPending--
 			r.mu.Unlock()
-		})
+		}
+		if r.c.Cfg.Managed {
+			if err := ts.txn.CommitAt(r.managedCommitTs(op.Ts), cb); err != nil {
+				cb(err)
+			}
+		} else {
+			ts.txn.CommitWith(cb)
+		}
 		cl.cur = nil
 		return
 	}
-	err := ts.txn.Commit()
+	var err error
+	if r.c.Cfg.Managed {
+		cts := r.managedCommitTs(op.Ts)
+		err = ts.txn.CommitAt(cts, nil)
+	} else {
+		err = ts.txn.Commit()
+	}
 	cl.cur = nil
 	finish(err)
+}
+
+// managedCommitTs makes a caller-chosen commit timestamp legal: above the
+// current discard timestamp (the oracle asserts that) and not used before
+// (two commits at one timestamp are outside C36's statement).
+func (r *Run) managedCommitTs(want uint64) uint64 {
+	r.mu.Lock()
+	defer r.mu.Unlock()
+	if want <= r.discardTs {
+		want = r.discardTs + 1 + want%7
+	}
+	for r.usedTs[want] {
+		want++
+	}
+	r.usedTs[want] = true
+	return want
 }
 
 func diffWrites(want, got []WriteRec) string {
@@ -1163,7 +1264,7 @@ func executeWith(t *testing.T, c *Case, prof *Profile, keepHist bool, pre func(*
 		return
 	}
 	defer os.RemoveAll(dir)
-	r := &Run{c: c, prof: prof, dir: filepath.Join(dir, "d"), model: NewModel(), byGid: map[int64]*clientState{}, inFlight: map[uint64]bool{}, keepHist: keepHist, wms: map[string]*wmState{}, curRec: map[int64]*CommitRec{}, subByGid: map[int64]*extraState{}, seqSeen: map[string]map[uint64]string{}}
+	r := &Run{c: c, prof: prof, dir: filepath.Join(dir, "d"), model: NewModel(), byGid: map[int64]*clientState{}, inFlight: map[uint64]bool{}, keepHist: keepHist, wms: map[string]*wmState{}, curRec: map[int64]*CommitRec{}, subByGid: map[int64]*extraState{}, seqSeen: map[string]map[uint64]string{}, usedTs: map[uint64]bool{}}
 	r.vdir = r.dir
 	if c.Cfg.SeparateValueDir {
 		r.vdir = filepath.Join(dir, "v")
@@ -1450,6 +1551,7 @@ func (r *Run) prefill() {
 // must see the model's final state.
 func (r *Run) finalChecks() {
 	if r.c.Cfg.Managed {
+		r.finalChecksManaged()
 		return
 	}
 	txn := r.db.NewTransaction(false)
